@@ -13,10 +13,10 @@ def mk_iv(seed, C, D, R, **kw):
     return m
 
 
-def mk_stats(rs, C, D, zero=None):
+def mk_stats(rs, C, D, zero=None, scale=1.0):
     from bob.learn.em import GMMStats
     s = GMMStats(C, D)
-    s.n = rs.uniform(0.5, 6, size=C)
+    s.n = rs.uniform(0.5, 6, size=C) * scale
     if zero is not None:
         s.n[zero] = 0.0
     x = rs.normal(size=(C, D)) + 3
@@ -74,6 +74,20 @@ def mode_all(p):
         from bob.learn.em import GMMStats
         if not close(m.project(GMMStats(C, D)), np.zeros(R), 1e-12):
             return {"what": "statistics with no frames do not give the zero i-vector"}
+        # the M-step formula at small occupation counts (short utterances / many components) and larger subspaces:
+        # T'_c solves T'_c E[N w w']_c = E[Fnorm w']_c for every component with data, whatever the scale of the counts
+        for scale, R2 in ((1.0, R), (1e-6, 3), (1e-6, 4)):
+            mm = mk_iv(seed + 7, C, D, R2, update_sigma=False)
+            data = [mk_stats(rs, C, D, None, scale) for _ in range(4)]
+            st = e_step(mm, data)
+            A_, B_, nij = np.array(st.nij_sigma_wij2), np.array(st.fnorm_sigma_wij), np.array(st.nij)
+            m_step(mm, st)
+            for c in range(C):
+                if nij[c] > 0:
+                    lhs, rhs = mm.T[c] @ A_[c], B_[c]
+                    if not np.all(np.abs(lhs - rhs) <= 1e-6 * (np.abs(rhs).max() + np.abs(lhs).max())):
+                        return {"input": {"count_scale": scale, "dim_t": R2, "component": c, "nij": float(nij[c])},
+                                "observed": mm.T[c].tolist(), "what": "after the M-step T_c does not solve T_c E[N w w']_c = E[Fnorm w']_c for a component with data"}
         for upd in (True, False):
             for zero in (None, 0):
                 mm = mk_iv(seed, C, D, R, update_sigma=upd, variance_floor=1e-3)
